@@ -196,6 +196,13 @@ impl<T> Sender<T> {
 
 impl<T> Clone for Sender<T> {
   fn clone(&self) -> Self {
+    // A handle that was closed no longer counts towards its side; neither does its clone.
+    if self.closed.load(Ordering::Acquire) {
+      return Sender {
+        shared: Arc::clone(&self.shared),
+        closed: AtomicBool::new(true),
+      };
+    }
     self.shared.increment_senders();
     Sender {
       shared: Arc::clone(&self.shared),
